@@ -15,7 +15,7 @@ Dbs0 == {d \in UNION {[K -> ValU] : K \in SUBSET Keys} : kb \in DOMAIN d => d[kb
 HashStates == {WithDb0(InitServer({1}), d) : d \in Dbs0}
 
 \* HINCRBYFLOAT on a field holding +-2^63 is numeric accuracy (float64 vs long double), not claimed
-HashRelevant(s, cmd) == ~(CmdName(cmd) = "HINCRBYFLOAT" /\ ka \in DOMAIN s.dbs[0] /\ s.dbs[0][ka].ty = "hash" /\ (\E ff \in DOMAIN s.dbs[0][ka].h : Len(s.dbs[0][ka].h[ff]) > 9))
+HashRelevant(s, cmd) == ~(CmdName(cmd) = "HINCRBYFLOAT" /\ Len(cmd) >= 2 /\ cmd[2] \in DOMAIN s.dbs[0] /\ s.dbs[0][cmd[2]].ty = "hash" /\ (\E ff \in DOMAIN s.dbs[0][cmd[2]].h : Len(s.dbs[0][cmd[2]].h[ff]) > 9))
 Incs == {N(1), N(-1), N(0), N(3), N(-3), N(5), N(-10), N(2), N(-2), MaxI, MinI, x, B("1.5"), B("")}
 FInc == {B("0.5"), B("-0.25"), B("3"), B("0"), B("1.75"), x, B("")}
 
